@@ -259,6 +259,46 @@ Section RingLaws.
     m4_mul_v O (m4_add O A B) v = v4_add O (m4_mul_v O A v) (m4_mul_v O B v) /\
     m4_mul_v O (m4_mul_s O A s) v = v4_mul_s O (m4_mul_v O A v) s. Proof. mring. Qed.
 
+  (* a matrix acting as the identity on every vector is the identity *)
+  Lemma m2_ext_identity M : (forall v, m2_mul_v O M v = v) -> M = m2_identity O.
+  Proof.
+    intros H. pose proof (H (v2_unit_x O)) as Ex. pose proof (H (v2_unit_y O)) as Ey. clear H.
+    destruct M as [[a0 a1] [b0 b1]]. unfold_model.
+    injection Ex as X0 X1. injection Ey as Y0 Y1.
+    mat_eq.
+    - rewrite <- X0; ring. - rewrite <- X1; ring.
+    - rewrite <- Y0; ring. - rewrite <- Y1; ring.
+  Qed.
+  Lemma m3_ext_identity M : (forall v, m3_mul_v O M v = v) -> M = m3_identity O.
+  Proof.
+    intros H. pose proof (H (v3_unit_x O)) as Ex. pose proof (H (v3_unit_y O)) as Ey. pose proof (H (v3_unit_z O)) as Ez. clear H.
+    destruct M as [[a0 a1 a2] [b0 b1 b2] [c0 c1 c2]]. unfold_model.
+    injection Ex as X0 X1 X2. injection Ey as Y0 Y1 Y2. injection Ez as Z0 Z1 Z2.
+    mat_eq.
+    - rewrite <- X0; ring. - rewrite <- X1; ring. - rewrite <- X2; ring.
+    - rewrite <- Y0; ring. - rewrite <- Y1; ring. - rewrite <- Y2; ring.
+    - rewrite <- Z0; ring. - rewrite <- Z1; ring. - rewrite <- Z2; ring.
+  Qed.
+  (* affine block matrices [M | t; 0 | 1] *)
+  Definition m4_aff (M : M3 F) (t : V3 F) : M4 F :=
+    let m := m4_of_m3 O M in mkM4 (m4x m) (m4y m) (m4z m) (v3_extend t 1).
+  Definition m3_aff (M : M2 F) (t : V2 F) : M3 F :=
+    let m := m3_of_m2 O M in mkM3 (m3x m) (m3y m) (v2_extend t 1).
+  Lemma m4_aff_mul M N t u :
+    m4_mul O (m4_aff M t) (m4_aff N u) = m4_aff (m3_mul O M N) (v3_add O (m3_mul_v O M u) t).
+  Proof. unfold m4_aff. mring. Qed.
+  Lemma m3_aff_mul M N t u :
+    m3_mul O (m3_aff M t) (m3_aff N u) = m3_aff (m2_mul O M N) (v2_add O (m2_mul_v O M u) t).
+  Proof. unfold m3_aff. mring. Qed.
+  Lemma m4_aff_identity : m4_aff (m3_identity O) (v3_zero O) = m4_identity O.
+  Proof. reflexivity. Qed.
+  Lemma m3_aff_identity : m3_aff (m2_identity O) (v2_zero O) = m3_identity O.
+  Proof. reflexivity. Qed.
+  Lemma m3_mul_scale M N s t : m3_mul O (m3_mul_s O M s) (m3_mul_s O N t) = m3_mul_s O (m3_mul O M N) (s * t).
+  Proof. mring. Qed.
+  Lemma m2_mul_scale M N s t : m2_mul O (m2_mul_s O M s) (m2_mul_s O N t) = m2_mul_s O (m2_mul O M N) (s * t).
+  Proof. mring. Qed.
+
   (* ---- Transform::transform_vector / concat for matrices (no division involved) ---- *)
   Lemma m3_transform_vector3_spec m v : m3_transform_vector3 O m v = m3_mul_v O m v. Proof. reflexivity. Qed.
   Lemma m3_transform_point3_spec m p : p3_to_vec (m3_transform_point3 O m p) = m3_mul_v O m (p3_to_vec p). Proof. mring. Qed.
